@@ -32,43 +32,44 @@ Local Open Scope nat_scope.
 
 Definition line_target (x : f64) : N := Z.to_N (f64_to_u64_sat x).
 
-(* [SRen rest stmt ts]: [ts] spells [stmt] when followed by [rest] *)
+(* [SRen d rest stmt ts]: [ts] spells [stmt] when followed by [rest], at nesting depth [d]
+   (0 for a statement of the line, one more inside each IF..THEN clause) *)
 (* [F]: the expression fuel the reference interpreter is run with; every
    expression of the program must fit ([xsize], [isize]) *)
-Inductive SRen (F : nat) (rest : list token) : rstmt -> list token -> Prop :=
-| SR_let v e e' te : tr e = Some e' -> Renders 0 e' te -> 1 + pdepth e' < max_nesting -> stops 0 rest = true ->
+Inductive SRen (F : nat) (d : nat) (rest : list token) : rstmt -> list token -> Prop :=
+| SR_let v e e' te : tr e = Some e' -> Renders 0 e' te -> S d + pdepth e' < max_nesting -> stops 0 rest = true ->
     xsize e <= F ->
-    SRen F rest (SLet v [] e) (TSymbol v :: TEquals :: te)
+    SRen F d rest (SLet v [] e) (TSymbol v :: TEquals :: te)
 | SR_print items mitems ti : tr_items items = Some mitems -> IRenders rest mitems ti ->
-    1 + idepth mitems < max_nesting -> isize items <= F ->
-    SRen F rest (SPrint items) (TPrint :: ti)
-| SR_goto n x : line_target x = n -> SRen F rest (SGoto n) [TGoto; TNumber x]
-| SR_gosub n x : line_target x = n -> SRen F rest (SGosub n) [TGosub; TNumber x]
-| SR_return : SRen F rest SReturn [TReturn]
-| SR_end : SRen F rest SEnd [TEnd]
-| SR_if c c' tc n x : tr c = Some c' -> Renders 0 c' tc -> 1 + pdepth c' < max_nesting -> line_target x = n ->
+    S d + idepth mitems < max_nesting -> isize items <= F ->
+    SRen F d rest (SPrint items) (TPrint :: ti)
+| SR_goto n x : line_target x = n -> SRen F d rest (SGoto n) [TGoto; TNumber x]
+| SR_gosub n x : line_target x = n -> SRen F d rest (SGosub n) [TGosub; TNumber x]
+| SR_return : SRen F d rest SReturn [TReturn]
+| SR_end : SRen F d rest SEnd [TEnd]
+| SR_if c c' tc n x : tr c = Some c' -> Renders 0 c' tc -> S d + pdepth c' < max_nesting -> line_target x = n ->
     xsize c <= F ->
-    SRen F rest (SIf c (ALine n) None) (TIf :: tc ++ [TThen; TNumber x])
+    SRen F d rest (SIf c (ALine n) None) (TIf :: tc ++ [TThen; TNumber x])
 | SR_for v a a' ta b b' tb stp tstep :
-    tr a = Some a' -> Renders 0 a' ta -> 1 + pdepth a' < max_nesting -> xsize a <= F ->
-    tr b = Some b' -> Renders 0 b' tb -> 1 + pdepth b' < max_nesting -> xsize b <= F ->
+    tr a = Some a' -> Renders 0 a' ta -> S d + pdepth a' < max_nesting -> xsize a <= F ->
+    tr b = Some b' -> Renders 0 b' tb -> S d + pdepth b' < max_nesting -> xsize b <= F ->
     ((stp = None /\ tstep = []) \/
      (exists c c' tc, stp = Some c /\ tstep = TStep :: tc /\ tr c = Some c' /\ Renders 0 c' tc
-                      /\ 1 + pdepth c' < max_nesting /\ xsize c <= F)) ->
-    SRen F rest (SFor v a b stp) (TFor :: TSymbol v :: TEquals :: ta ++ TTo :: tb ++ tstep)
-| SR_next v : SRen F rest (SNext v) [TNext; TSymbol v].
+                      /\ S d + pdepth c' < max_nesting /\ xsize c <= F)) ->
+    SRen F d rest (SFor v a b stp) (TFor :: TSymbol v :: TEquals :: ta ++ TTo :: tb ++ tstep)
+| SR_next v : SRen F d rest (SNext v) [TNext; TSymbol v].
 
 (* a line: statements joined by colons *)
 Inductive LRen (F : nat) : list rstmt -> list token -> Prop :=
-| LR_last s ts : SRen F [] s ts -> LRen F [s] ts
-| LR_cons s ts r tr : SRen F (TColon :: tr) s ts -> LRen F r tr -> LRen F (s :: r) (ts ++ TColon :: tr).
+| LR_last s ts : SRen F 0 [] s ts -> LRen F [s] ts
+| LR_cons s ts r tr : SRen F 0 (TColon :: tr) s ts -> LRen F r tr -> LRen F (s :: r) (ts ++ TColon :: tr).
 
-Lemma SRen_nonempty F rest s ts : SRen F rest s ts -> exists t ts', ts = t :: ts' /\ t <> TElse /\ t <> TColon.
+Lemma SRen_nonempty F d rest s ts : SRen F d rest s ts -> exists t ts', ts = t :: ts' /\ t <> TElse /\ t <> TColon.
 Proof. destruct 1; eexists _, _; (split; [reflexivity | split; discriminate]). Qed.
 
 Lemma LRen_nonempty F stmts toks : LRen F stmts toks -> exists t toks', toks = t :: toks' /\ t <> TElse /\ t <> TColon.
 Proof.
-  destruct 1 as [s ts H|s ts r tr H _]; destruct (SRen_nonempty _ _ _ _ H) as (t & ts' & -> & Ht);
+  destruct 1 as [s ts H|s ts r tr H _]; destruct (SRen_nonempty _ _ _ _ _ H) as (t & ts' & -> & Ht);
     eexists _, _; (split; [reflexivity | exact Ht]).
 Qed.
 
@@ -231,6 +232,9 @@ Section Step.
   (* the stored lines are the program's lines, none starts with ELSE *)
   Hypothesis Hjump : forall n, store_has n s = match find_line p n 0 with Some _ => true | None => false end.
   Hypothesis Hheads : forall n l, toks_get n (st_toks s) = Some l -> exists t l', l = t :: l' /\ t <> TElse.
+  (* the statement may sit inside IF..THEN clauses: [d] is its nesting depth *)
+  Variable d : nat.
+  Hypothesis Hd : Nat.eqb d max_nesting = false.
 
   (* what a statement leaves alone *)
   Definition keeps (s' : interp) : Prop :=
@@ -283,7 +287,7 @@ Section Step.
 
   Definition steps_as (stmt : rstmt) (i : nat) (ts : list token) : Prop :=
     exists f0, forall fuel, f0 <= fuel -> forall r o,
-      step_result stmt i ts (evaluate_statement fuel 0 (at_idx s i r o)) o.
+      step_result stmt i ts (evaluate_statement fuel d (at_idx s i r o)) o.
 
   Lemma W_off o o' : W s o o' -> o' = o.
   Proof. unfold W. rewrite Hwarn. auto. Qed.
@@ -297,11 +301,11 @@ Section Step.
   (* LET *)
   Lemma step_let v e e' te rest i :
     skipn i toks = TSymbol v :: TEquals :: te ++ rest -> stops 0 rest = true ->
-    tr e = Some e' -> Renders 0 e' te -> 1 + pdepth e' < max_nesting -> xsize e <= F ->
+    tr e = Some e' -> Renders 0 e' te -> S d + pdepth e' < max_nesting -> xsize e <= F ->
     steps_as (SLet v [] e) i (TSymbol v :: TEquals :: te).
   Proof.
-    intros Hsk Hst Htr Hren Hd HF.
-    destruct (model_let s toks Htoks Htrace v e' te rest i Hsk Hst Hren Hd) as (f0 & Hm).
+    intros Hsk Hst Htr Hren Hdp HF.
+    destruct (model_let s toks Htoks Htrace v e' te rest i Hsk Hst Hren d Hd Hdp) as (f0 & Hm).
     exists f0. intros fuel Hf r o. destruct (Hm fuel Hf r o) as (i' & r' & o' & HW & Hrun). clear Hm.
     apply W_off in HW. subst o'. unfold step_result, step_outcome.
     rewrite (ref_let s v e e' Htr p after li st Hrel F HF), Hrun.
@@ -322,11 +326,11 @@ Section Step.
   (* PRINT *)
   Lemma step_print items mitems ti rest i :
     skipn i toks = TPrint :: ti ++ rest ->
-    tr_items items = Some mitems -> IRenders rest mitems ti -> 1 + idepth mitems < max_nesting -> isize items <= F ->
+    tr_items items = Some mitems -> IRenders rest mitems ti -> S d + idepth mitems < max_nesting -> isize items <= F ->
     steps_as (SPrint items) i (TPrint :: ti).
   Proof.
-    intros Hsk Htr Hren Hd HF.
-    destruct (model_print s toks Htoks mitems ti rest i Htrace Hsk Hren Hd) as (f0 & Hm).
+    intros Hsk Htr Hren Hdp HF.
+    destruct (model_print s toks Htoks mitems ti rest i Htrace Hsk Hren d Hd Hdp) as (f0 & Hm).
     exists f0. intros fuel Hf r o. destruct (Hm fuel Hf r o) as (i' & r' & o' & HW & Hrun). clear Hm.
     apply W_off in HW. subst o'. unfold step_result, step_outcome. cbn [exec].
     rewrite (ref_print_items F st s Hrel items mitems Htr HF false []), Hrun.
@@ -361,8 +365,8 @@ Section Step.
     intros Hsk Hn. cbn [app] in Hsk.
     destruct (skipn_cons_nth _ _ _ _ Hsk) as [H0 Hs1]. destruct (skipn_cons_nth _ _ _ _ Hs1) as [H1 _].
     exists 1. intros fuel Hf r o. destruct fuel as [|f]; [lia|].
-    assert (Hrun : evaluate_statement (S f) 0 (at_idx s i r o) = goto_line_number n (at_idx s (S (S i)) (S (S r)) o)).
-    { cbn [evaluate_statement]. change (Nat.eqb 0 max_nesting) with false. cbv iota.
+    assert (Hrun : evaluate_statement (S f) d (at_idx s i r o) = goto_line_number n (at_idx s (S (S i)) (S (S r)) o)).
+    { cbn [evaluate_statement]. rewrite Hd.
       unfold evaluate_statement_body.
       rewrite bind_get_run. change (enable_tracing (at_idx s i r o)) with (enable_tracing s). rewrite Htrace. cbv iota.
       rewrite bind_ret'.
@@ -390,8 +394,8 @@ Section Step.
     intros Hsk Hn Hdepth. cbn [app] in Hsk.
     destruct (skipn_cons_nth _ _ _ _ Hsk) as [H0 Hs1]. destruct (skipn_cons_nth _ _ _ _ Hs1) as [H1 _].
     exists 1. intros fuel Hf r o. destruct fuel as [|f]; [lia|].
-    assert (Hrun : evaluate_statement (S f) 0 (at_idx s i r o) = gosub_line_number n (at_idx s (S (S i)) (S (S r)) o)).
-    { cbn [evaluate_statement]. change (Nat.eqb 0 max_nesting) with false. cbv iota.
+    assert (Hrun : evaluate_statement (S f) d (at_idx s i r o) = gosub_line_number n (at_idx s (S (S i)) (S (S r)) o)).
+    { cbn [evaluate_statement]. rewrite Hd.
       unfold evaluate_statement_body.
       rewrite bind_get_run. change (enable_tracing (at_idx s i r o)) with (enable_tracing s). rewrite Htrace. cbv iota.
       rewrite bind_ret'.
@@ -443,8 +447,8 @@ Section Step.
   Proof.
     intros Hsk Hnil Hcons. cbn [app] in Hsk. destruct (skipn_cons_nth _ _ _ _ Hsk) as [H0 _].
     exists 1. intros fuel Hf r o. destruct fuel as [|f]; [lia|].
-    assert (Hrun : evaluate_statement (S f) 0 (at_idx s i r o) = return_to_last_gosub (at_idx s (S i) (S r) o)).
-    { cbn [evaluate_statement]. change (Nat.eqb 0 max_nesting) with false. cbv iota.
+    assert (Hrun : evaluate_statement (S f) d (at_idx s i r o) = return_to_last_gosub (at_idx s (S i) (S r) o)).
+    { cbn [evaluate_statement]. rewrite Hd.
       unfold evaluate_statement_body.
       rewrite bind_get_run. change (enable_tracing (at_idx s i r o)) with (enable_tracing s). rewrite Htrace. cbv iota.
       rewrite bind_ret'.
@@ -534,11 +538,11 @@ Section Step.
   Lemma step_for v a a' ta b b' tb stp tstep rest i :
     skipn i toks = (TFor :: TSymbol v :: TEquals :: ta ++ TTo :: tb ++ tstep) ++ rest ->
     (rest = [] \/ exists tr, rest = TColon :: tr) ->
-    tr a = Some a' -> Renders 0 a' ta -> 1 + pdepth a' < max_nesting -> xsize a <= F ->
-    tr b = Some b' -> Renders 0 b' tb -> 1 + pdepth b' < max_nesting -> xsize b <= F ->
+    tr a = Some a' -> Renders 0 a' ta -> S d + pdepth a' < max_nesting -> xsize a <= F ->
+    tr b = Some b' -> Renders 0 b' tb -> S d + pdepth b' < max_nesting -> xsize b <= F ->
     ((stp = None /\ tstep = []) \/
      (exists c c' tc, stp = Some c /\ tstep = TStep :: tc /\ tr c = Some c' /\ Renders 0 c' tc
-                      /\ 1 + pdepth c' < max_nesting /\ xsize c <= F)) ->
+                      /\ S d + pdepth c' < max_nesting /\ xsize c <= F)) ->
     Forall2 lsame (r_loops st) (loops s) ->
     steps_as (SFor v a b stp) i (TFor :: TSymbol v :: TEquals :: ta ++ TTo :: tb ++ tstep).
   Proof.
@@ -546,14 +550,14 @@ Section Step.
     cbn [app] in Hsk. rewrite <- app_assoc in Hsk. cbn [app] in Hsk. rewrite <- app_assoc in Hsk.
     destruct (skipn_cons_nth _ _ _ _ Hsk) as [H0 Hs1]. destruct (skipn_cons_nth _ _ _ _ Hs1) as [H1 Hs2].
     destruct (skipn_cons_nth _ _ _ _ Hs2) as [H2 Hs3].
-    destruct (expr_sem_at s toks Htoks a' ta Hra 1 (S (S (S i))) (TTo :: tb ++ tstep ++ rest) Hs3 eq_refl Hda) as (fa & Hfa).
+    destruct (expr_sem_at s toks Htoks a' ta Hra (S d) (S (S (S i))) (TTo :: tb ++ tstep ++ rest) Hs3 eq_refl Hda) as (fa & Hfa).
     pose proof (skipn_app_len _ _ _ _ Hs3) as Hs4.
     set (ja := S (S (S i)) + length ta) in *.
     destruct (skipn_cons_nth _ _ _ _ Hs4) as [H4 Hs5].
     assert (Hstop : stops 0 (tstep ++ rest) = true).
     { destruct Hstep as [[_ ->]|(c & c' & tc & _ & -> & _)]; [|reflexivity].
       destruct Hrest as [->|(tr0 & ->)]; reflexivity. }
-    destruct (expr_sem_at s toks Htoks b' tb Hrb 1 (S ja) (tstep ++ rest) Hs5 Hstop Hdb) as (fb & Hfb).
+    destruct (expr_sem_at s toks Htoks b' tb Hrb (S d) (S ja) (tstep ++ rest) Hs5 Hstop Hdb) as (fb & Hfb).
     pose proof (skipn_app_len _ _ _ _ Hs5) as Hs6.
     set (jb := S ja + length tb) in *.
     pose proof (den_plain s a a' Ha) as Hpa. pose proof (den_plain s b b' Hb) as Hpb.
@@ -567,7 +571,7 @@ Section Step.
       exists (S (S (fa + fb))). intros fuel Hf r o. destruct fuel as [|f]; [lia|].
       destruct (Hfa f ltac:(lia) (S (S (S r))) o) as (i1 & r1 & o1 & Hev1 & Hi1 & HW1). apply W_off in HW1. subst o1.
       destruct (Hfb f ltac:(lia) (S r1) o) as (i2 & r2 & o2 & Hev2 & Hi2 & HW2). apply W_off in HW2. subst o2.
-      assert (Hrun : evaluate_statement (S f) 0 (at_idx s i r o) =
+      assert (Hrun : evaluate_statement (S f) d (at_idx s i r o) =
                 match den s a' with
                 | Ok (VNum from) =>
                     match den s b' with
@@ -584,7 +588,7 @@ Section Step.
                 | OutOfFuel => (OutOfFuel, at_idx s i1 r1 o)
                 | OracleMiss => (OracleMiss, at_idx s i1 r1 o)
                 end).
-      { cbn [evaluate_statement]. change (Nat.eqb 0 max_nesting) with false. cbv iota.
+      { cbn [evaluate_statement]. rewrite Hd.
         unfold evaluate_statement_body.
         rewrite bind_get_run. change (enable_tracing (at_idx s i r o)) with (enable_tracing s). rewrite Htrace. cbv iota.
         rewrite bind_ret'.
@@ -614,14 +618,14 @@ Section Step.
     - (* STEP c *)
       cbn [app] in Hs6. destruct (skipn_cons_nth _ _ _ _ Hs6) as [H6 Hs7].
       assert (Hstop2 : stops 0 rest = true) by (destruct Hrest as [->|(tr0 & ->)]; reflexivity).
-      destruct (expr_sem_at s toks Htoks c' tc Hrc 1 (S jb) rest Hs7 Hstop2 Hdc) as (fc & Hfc).
+      destruct (expr_sem_at s toks Htoks c' tc Hrc (S d) (S jb) rest Hs7 Hstop2 Hdc) as (fc & Hfc).
       set (jc := S jb + length tc) in *.
       pose proof (den_plain s c c' Hc) as Hpc.
       exists (S (S (fa + fb + fc))). intros fuel Hf r o. destruct fuel as [|f]; [lia|].
       destruct (Hfa f ltac:(lia) (S (S (S r))) o) as (i1 & r1 & o1 & Hev1 & Hi1 & HW1). apply W_off in HW1. subst o1.
       destruct (Hfb f ltac:(lia) (S r1) o) as (i2 & r2 & o2 & Hev2 & Hi2 & HW2). apply W_off in HW2. subst o2.
       destruct (Hfc f ltac:(lia) (S r2) o) as (i3 & r3 & o3 & Hev3 & Hi3 & HW3). apply W_off in HW3. subst o3.
-      assert (Hrun : evaluate_statement (S f) 0 (at_idx s i r o) =
+      assert (Hrun : evaluate_statement (S f) d (at_idx s i r o) =
                 match den s a' with
                 | Ok (VNum from) =>
                     match den s b' with
@@ -646,7 +650,7 @@ Section Step.
                 | OutOfFuel => (OutOfFuel, at_idx s i1 r1 o)
                 | OracleMiss => (OracleMiss, at_idx s i1 r1 o)
                 end).
-      { cbn [evaluate_statement]. change (Nat.eqb 0 max_nesting) with false. cbv iota.
+      { cbn [evaluate_statement]. rewrite Hd.
         unfold evaluate_statement_body.
         rewrite bind_get_run. change (enable_tracing (at_idx s i r o)) with (enable_tracing s). rewrite Htrace. cbv iota.
         rewrite bind_ret'.
@@ -690,8 +694,8 @@ Section Step.
     intros Hsk HL HT. cbn [app] in Hsk.
     destruct (skipn_cons_nth _ _ _ _ Hsk) as [H0 Hs1]. destruct (skipn_cons_nth _ _ _ _ Hs1) as [H1 _].
     exists 1. intros fuel Hf r o. destruct fuel as [|f]; [lia|].
-    assert (Hrun : evaluate_statement (S f) 0 (at_idx s i r o) = end_loop v (at_idx s (S (S i)) (S (S r)) o)).
-    { cbn [evaluate_statement]. change (Nat.eqb 0 max_nesting) with false. cbv iota.
+    assert (Hrun : evaluate_statement (S f) d (at_idx s i r o) = end_loop v (at_idx s (S (S i)) (S (S r)) o)).
+    { cbn [evaluate_statement]. rewrite Hd.
       unfold evaluate_statement_body.
       rewrite bind_get_run. change (enable_tracing (at_idx s i r o)) with (enable_tracing s). rewrite Htrace. cbv iota.
       rewrite bind_ret'.
@@ -765,7 +769,7 @@ Section Step.
     intros Hsk Himm. cbn [app] in Hsk. destruct (skipn_cons_nth _ _ _ _ Hsk) as [H0 _].
     exists 1. intros fuel Hf r o. destruct fuel as [|f]; [lia|].
     unfold step_result, step_outcome. cbn [exec]. split; [reflexivity|].
-    cbn [evaluate_statement]. change (Nat.eqb 0 max_nesting) with false. cbv iota.
+    cbn [evaluate_statement]. rewrite Hd.
     unfold evaluate_statement_body.
     rewrite bind_get_run. change (enable_tracing (at_idx s i r o)) with (enable_tracing s). rewrite Htrace. cbv iota.
     rewrite bind_ret'.
@@ -779,13 +783,13 @@ Section Step.
   (* IF c THEN <line> *)
   Lemma step_if c c' tc n x rest i :
     skipn i toks = (TIf :: tc ++ [TThen; TNumber x]) ++ rest -> (rest = [] \/ exists tr, rest = TColon :: tr) ->
-    tr c = Some c' -> Renders 0 c' tc -> 1 + pdepth c' < max_nesting -> xsize c <= F -> line_target x = n ->
+    tr c = Some c' -> Renders 0 c' tc -> S d + pdepth c' < max_nesting -> xsize c <= F -> line_target x = n ->
     steps_as (SIf c (ALine n) None) i (TIf :: tc ++ [TThen; TNumber x]).
   Proof.
-    intros Hsk Hrest Htr Hren Hd HF Hn.
+    intros Hsk Hrest Htr Hren Hdp HF Hn.
     cbn [app] in Hsk. rewrite <- app_assoc in Hsk. cbn [app] in Hsk.
     destruct (skipn_cons_nth _ _ _ _ Hsk) as [H0 Hs1].
-    destruct (expr_sem_at s toks Htoks c' tc Hren 1 (S i) (TThen :: TNumber x :: rest) Hs1 eq_refl Hd) as (fe & Hfe).
+    destruct (expr_sem_at s toks Htoks c' tc Hren (S d) (S i) (TThen :: TNumber x :: rest) Hs1 eq_refl Hdp) as (fe & Hfe).
     pose proof (skipn_app_len _ _ _ _ Hs1) as Hs2.
     destruct (skipn_cons_nth _ _ _ _ Hs2) as [H2 Hs3]. destruct (skipn_cons_nth _ _ _ _ Hs3) as [H3 Hs4].
     set (j := S i + length tc) in *.
@@ -795,11 +799,11 @@ Section Step.
     rewrite (ref_expr_is_den c c' st s F Htr (same_store_reads _ _ Hrel) HF).
     pose proof (den_plain s c c' Htr) as Hp.
     (* the model up to the branch *)
-    assert (Hrun : evaluate_statement (S f) 0 (at_idx s i r o) =
+    assert (Hrun : evaluate_statement (S f) d (at_idx s i r o) =
               match den s c' with
               | Ok v =>
                   (if to_bool v then
-                     statement_or_goto_line_number (evaluate_statement f 1) ;;;
+                     statement_or_goto_line_number (evaluate_statement f (S d)) ;;;
                      e <- peek_is TElse ;; if e then discard_remaining_tokens else ret tt
                    else
                      repeat_m f (fun _ : unit =>
@@ -807,7 +811,7 @@ Section Step.
                        match t with
                        | None => ret (inr tt)
                        | Some TColon => discard_remaining_tokens ;;; ret (inl tt)
-                       | Some TElse => statement_or_goto_line_number (evaluate_statement f 1) ;;; ret (inr tt)
+                       | Some TElse => statement_or_goto_line_number (evaluate_statement f (S d)) ;;; ret (inr tt)
                        | Some _ => ret (inl tt)
                        end) tt) (at_idx s (S j) (S r1) o)
               | Err er l => (Err er l, at_idx s i1 r1 o)
@@ -815,7 +819,7 @@ Section Step.
               | OutOfFuel => (OutOfFuel, at_idx s i1 r1 o)
               | OracleMiss => (OracleMiss, at_idx s i1 r1 o)
               end).
-    { cbn [evaluate_statement]. change (Nat.eqb 0 max_nesting) with false. cbv iota.
+    { cbn [evaluate_statement]. rewrite Hd.
       unfold evaluate_statement_body.
       rewrite bind_get_run. change (enable_tracing (at_idx s i r o)) with (enable_tracing s). rewrite Htrace. cbv iota.
       rewrite bind_ret'.
@@ -1204,28 +1208,29 @@ Section Program.
   Qed.
 
   (* every statement of the fragment steps as its step lemma says *)
-  Lemma sren_steps s toks li after st stmt ts rest i :
+  Lemma sren_steps s toks li after st d stmt ts rest i :
     Inv s -> fst (cur_tokens s) = Ok toks -> same_store st s -> calls_rel st s -> loops_rel st s -> typed s ->
+    Nat.eqb d max_nesting = false ->
     skipn i toks = ts ++ rest -> (rest = [] \/ exists tr, rest = TColon :: tr) ->
-    SRen F rest stmt ts -> steps_as F p s toks li after st stmt i ts.
+    SRen F d rest stmt ts -> steps_as F p s toks d li after st stmt i ts.
   Proof.
-    intros HI Htoks Hrel Hcr Hlr Hty Hsk Hrest HS.
+    intros HI Htoks Hrel Hcr Hlr Hty Hd Hsk Hrest HS.
     pose proof (i_trace s HI) as Htr. pose proof (i_warn s HI) as Hw.
     destruct HS as [v e e' te H1 H2 H3 H4 H5|items mitems ti H1 H2 H3 H4|n x H1|n x H1| | |c c' tc n x H1 H2 H3 H4 H5
                       |v a a' ta b b' tb stp tstep A1 A2 A3 A4 B1 B2 B3 B4 HC|v].
-    - eapply (step_let F p s toks Htoks Htr Hw li after st Hrel v e e' te rest i); eassumption.
-    - eapply (step_print F p s toks Htoks Htr Hw li after st Hrel items mitems ti rest i); eassumption.
-    - eapply (step_goto F p s toks Htoks Htr Hw (Inv_jump s HI) li after st Hrel n x rest i); eassumption.
-    - eapply (step_gosub F p s toks Htoks Htr Hw (Inv_jump s HI) li after st Hrel n x rest i);
+    - eapply (step_let F p s toks Htoks Htr Hw d Hd li after st Hrel v e e' te rest i); eassumption.
+    - eapply (step_print F p s toks Htoks Htr Hw d Hd li after st Hrel items mitems ti rest i); eassumption.
+    - eapply (step_goto F p s toks Htoks Htr Hw (Inv_jump s HI) d Hd li after st Hrel n x rest i); eassumption.
+    - eapply (step_gosub F p s toks Htoks Htr Hw (Inv_jump s HI) d Hd li after st Hrel n x rest i);
         [exact Hsk | exact H1 | apply calls_depth; exact Hcr].
-    - eapply (step_return F p s toks Htoks Htr Hw li after st Hrel rest i); [exact Hsk | apply calls_nil; exact Hcr |].
+    - eapply (step_return F p s toks Htoks Htr Hw d Hd li after st Hrel rest i); [exact Hsk | apply calls_nil; exact Hcr |].
       intros pc cr E. destruct (calls_cons st s pc cr Hcr E) as (fr & rs & A & B & _). exists fr, rs. split; assumption.
-    - eapply (step_end F p s toks Htoks Htr Hw li after st rest i); [exact Hsk | apply (i_imm s HI)].
-    - eapply (step_if F p s toks Htoks Htr Hw (Inv_jump s HI) (Inv_heads s HI) li after st Hrel c c' tc n x rest i);
+    - eapply (step_end F p s toks Htoks Htr Hw d Hd li after st rest i); [exact Hsk | apply (i_imm s HI)].
+    - eapply (step_if F p s toks Htoks Htr Hw (Inv_jump s HI) (Inv_heads s HI) d Hd li after st Hrel c c' tc n x rest i);
         eassumption.
-    - eapply (step_for F p s toks Htoks Htr Hw li after st Hrel v a a' ta b b' tb stp tstep rest i); try eassumption.
+    - eapply (step_for F p s toks Htoks Htr Hw d Hd li after st Hrel v a a' ta b b' tb stp tstep rest i); try eassumption.
       apply loops_lsame. exact Hlr.
-    - eapply (step_next F p s toks Htoks Htr Hw li after st Hrel v rest i); [exact Hsk | apply loops_lsame; exact Hlr | exact Hty].
+    - eapply (step_next F p s toks Htoks Htr Hw d Hd li after st Hrel v rest i); [exact Hsk | apply loops_lsame; exact Hlr | exact Hty].
   Qed.
 
   Definition FailsWith (er : rerr) (line : N) (st' : rstate) (s1 : interp) : Prop :=
@@ -1252,7 +1257,7 @@ Section Program.
     intros HI Hrun Hrel Hout Hcr Hlr Hty (n & stmts & toks & tl & Hp & Ht & Hl & Hsk & HL).
     (* the statement and what follows it on the line *)
     assert (Hsplit : exists stmt rs ts rest,
-              skipn si stmts = stmt :: rs /\ tl = ts ++ rest /\ SRen F rest stmt ts
+              skipn si stmts = stmt :: rs /\ tl = ts ++ rest /\ SRen F 0 rest stmt ts
               /\ ((rest = [] /\ rs = []) \/ (exists tr', rest = TColon :: tr' /\ LRen F rs tr'))).
     { inversion HL as [s0 ts0 HS E1 E2|s0 ts0 r0 tr0 HS HL0 E1 E2].
       - exists s0, [], tl, []. rewrite app_nil_r. split; [reflexivity|]. split; [reflexivity|].
@@ -1267,8 +1272,8 @@ Section Program.
     destruct Hsplit as (stmt & rs & ts & rest & Hst & -> & HS & Hrest).
     destruct (skipn_cons_nth _ _ _ _ Hst) as [Hnth Hrs].
     assert (Hrest' : rest = [] \/ exists tr', rest = TColon :: tr') by (destruct Hrest as [[-> _]|(tr' & -> & _)]; eauto).
-    destruct (sren_steps s toks li (li, S si) st stmt ts rest i HI Htoks Hrel Hcr Hlr Hty Hsk Hrest' HS) as (f0 & Hstep).
-    destruct (SRen_nonempty _ _ _ _ HS) as (t & ts' & Ets & _).
+    destruct (sren_steps s toks li (li, S si) st 0 stmt ts rest i HI Htoks Hrel Hcr Hlr Hty eq_refl Hsk Hrest' HS) as (f0 & Hstep).
+    destruct (SRen_nonempty _ _ _ _ _ HS) as (t & ts' & Ets & _).
     assert (Hnt : nth_error (cur_toks s) (loc_idx (loc s)) = Some t).
     { rewrite Hct. fold i. rewrite Ets in Hsk. cbn [app] in Hsk. apply (skipn_cons_nth _ _ _ _ Hsk). }
     unfold rstep. cbn [fst snd]. rewrite Hp, Hnth.
